@@ -135,8 +135,8 @@ impl Client {
                         let move_details: Vec<MoveQuery> = moves
                             .into_iter()
                             .filter_map(|m| {
-                                let origin = Square::try_from(&m[0..2]).ok()?;
-                                let destination = Square::try_from(&m[2..4]).ok()?;
+                                let origin = Square::try_from(m.get(0..2)?).ok()?;
+                                let destination = Square::try_from(m.get(2..4)?).ok()?;
                                 let promotion = if let Some(p) = m.chars().nth(4) {
                                     match p {
                                         'q' => Some(Piece::Queen),
